@@ -31,6 +31,8 @@ type PEngine struct {
 	NonNegFields map[string]map[string]bool                // class -> excluded functions; fields assumed >= 0 once proven
 	NonNilIn     func(fn *ssa.Function, class string) bool // gating facts: field class is non-nil inside fn
 	EnumConv     bool
+	pureMemo map[*ssa.Function]bool
+	nnConds  map[*ssa.Function][]condAt
 }
 
 func NewPEngine(p *Prog, o *OEngine) *PEngine {
@@ -613,6 +615,29 @@ func (pf *pfunc) expandCallFacts(fs *factSet) {
 			fs.add(fact{l: ln.sub(pf.linOf(cnt)), why: "io.ReadFull: err == nil implies n == len(buf)"})
 		}
 	}
+	// a pointer-returning module function that returns the nil constant on some paths: a non-nil result
+	// implies the conditions common to all its other returns (tx.InputIdx(i) != nil => i <= count-1)
+	for i := 0; i < len(fs.facts); i++ {
+		f := fs.facts[i]
+		if f.nonil == "" {
+			continue
+		}
+		n := pf.byKey[f.nonil]
+		if n == nil || n.op != "call" {
+			continue
+		}
+		ci, ok := n.val.(*ssa.Call)
+		if !ok {
+			continue
+		}
+		sc := ci.Call.StaticCallee()
+		if sc == nil || len(sc.Blocks) == 0 || !inScope(pkgPathOf(sc)) {
+			continue
+		}
+		if conds := pf.P.nonNilConds(sc); len(conds) > 0 {
+			pf.instantiate(sc, ci, conds, fs, "postcondition of "+funcName(sc)+" (result != nil)")
+		}
+	}
 	// io.ReadFull: err != nil implies n < len(buf)
 	for i := 0; i < len(fs.facts); i++ {
 		f := fs.facts[i]
@@ -971,6 +996,44 @@ func commonConds(fn *ssa.Function, bs []*ssa.BasicBlock) []condAt {
 }
 
 // applyPost instantiates the callee's success conditions at the call.
+// nonNilConds: for a function with one pointer result, the branch conditions common to every return
+// whose value is not the nil constant.
+func (pe *PEngine) nonNilConds(fn *ssa.Function) []condAt {
+	if c, ok := pe.nnConds[fn]; ok {
+		return c
+	}
+	if pe.nnConds == nil {
+		pe.nnConds = map[*ssa.Function][]condAt{}
+	}
+	pe.nnConds[fn] = nil
+	res := fn.Signature.Results()
+	if res.Len() != 1 {
+		return nil
+	}
+	if _, isPtr := res.At(0).Type().Underlying().(*types.Pointer); !isPtr {
+		return nil
+	}
+	var blocks []*ssa.BasicBlock
+	nils := 0
+	for _, b := range fn.Blocks {
+		ret, ok := b.Instrs[len(b.Instrs)-1].(*ssa.Return)
+		if !ok {
+			continue
+		}
+		if k, isK := ret.Results[0].(*ssa.Const); isK && k.Value == nil {
+			nils++
+			continue
+		}
+		blocks = append(blocks, b)
+	}
+	if nils == 0 || len(blocks) == 0 {
+		return nil
+	}
+	c := commonConds(fn, blocks)
+	pe.nnConds[fn] = c
+	return c
+}
+
 func (pf *pfunc) applyPost(call *vn, nilRes *vn, fs *factSet) {
 	ci, ok := call.val.(*ssa.Call)
 	if !ok {
@@ -1142,6 +1205,35 @@ func (pf *pfunc) implicitFacts(atoms map[string]*vn, fs *factSet) {
 				if fits {
 					fs.add(fact{l: la.sub(exact), why: "arithmetic does not wrap"})
 					fs.add(fact{l: exact.sub(la), why: "arithmetic does not wrap"})
+				}
+			}
+		}
+		if a.op == "conv" && len(a.args) == 1 && isIntType(a.typ) && isIntType(a.args[0].typ) && !pf.inQuot {
+			// a conversion that may wrap in general is exact when the facts bound its operand inside the
+			// target type (uint32 -> int32 after the operand was compared with a length)
+			lo, hi, ok := intTypeRange(a.typ)
+			if ok {
+				x := pf.linOf(a.args[0])
+				pf.inQuot = true
+				fits := pf.prove(x.sub(linConst(lo)), fs) && pf.prove(linConst(hi).sub(x), fs)
+				pf.inQuot = false
+				if fits {
+					fs.add(fact{l: la.sub(x), why: "conversion keeps the value"})
+					fs.add(fact{l: x.sub(la), why: "conversion keeps the value"})
+				}
+			}
+		}
+		// len(Clone(x).Inputs) == len(x.Inputs) (and Outputs), while rule S-clonelen holds for this tree
+		if a.op == "len" && len(a.args) == 1 && a.args[0].op == "load" && len(a.args[0].args) == 1 && a.args[0].args[0].op == "fieldaddr" {
+			ld, fa := a.args[0], a.args[0].args[0]
+			base := fa.args[0]
+			if base.op == "call" && strings.HasPrefix(base.name, "(*bt.Tx).Clone") && len(base.args) == 1 {
+				field := fa.name[strings.LastIndex(fa.name, ".")+1:]
+				if cloneLenVerified[pf.P.P][field] && pf.posDominates(ld.at, base.at) {
+					src := pf.mk("fieldaddr", fa.typ, fa.name, token.ILLEGAL, base.args[0])
+					orig := pf.linOf(pf.mkLen(pf.loadAt(src, nil, ld.typ, base.at)))
+					fs.add(fact{l: la.sub(orig), why: "Tx.Clone keeps the number of " + field + " (rule S-clonelen)"})
+					fs.add(fact{l: orig.sub(la), why: "Tx.Clone keeps the number of " + field + " (rule S-clonelen)"})
 				}
 			}
 		}
